@@ -97,7 +97,7 @@ func main() {
 	}
 	code := res.Finish(*verif, known)
 	if selfFail && code == 0 {
-		fmt.Println("SELFTEST-FAIL: a control mutant that applies was not detected by its rule (checker defect, not a property violation)")
+		fmt.Println("SELFTEST-FAIL: a control mutant was not detected by its rule, or a behaviour-preserving variant raised an alarm (checker defect, not a property violation)")
 		code = 3
 	}
 	pprof.StopCPUProfile()
@@ -154,6 +154,28 @@ func runControls(repo, prop string, pr *rules.Prop, res *core.Result) bool {
 		for _, r := range pr.Rules {
 			rules.RunRule(c, r)
 		}
+		if ct.Rule == rules.CleanVariant {
+			// behaviour-preserving variant: no finding may appear that the unmodified tree does not have
+			base := map[string]bool{}
+			for _, f := range res.Findings {
+				base[f.Key()] = true
+			}
+			var extra []string
+			for _, f := range c.Findings {
+				if !base[f.Key()] {
+					extra = append(extra, "["+f.Rule+"] "+f.Construct+": "+f.What)
+				}
+			}
+			if len(extra) == 0 {
+				o.Result = "clean (as required)"
+			} else {
+				o.Result = "FALSE ALARM: " + firstLine(extra[0])
+				fail = true
+				fmt.Printf("SELFTEST-FAIL behaviour-preserving variant %q (%s) raised %d finding(s), first: %s\n", ct.Name, ct.File, len(extra), firstLine(extra[0]))
+			}
+			outs = append(outs, o)
+			continue
+		}
 		hit := false
 		for _, f := range c.Findings {
 			if f.Rule == ct.Rule {
@@ -173,18 +195,28 @@ func runControls(repo, prop string, pr *rules.Prop, res *core.Result) bool {
 		res.Extra = map[string]interface{}{}
 	}
 	res.Extra["control_mutants"] = outs
-	n, d := 0, 0
+	n, d, nc, dc, sk := 0, 0, 0, 0, 0
 	for _, o := range outs {
-		if !strings.HasPrefix(o.Result, "skipped") {
+		switch {
+		case strings.HasPrefix(o.Result, "skipped"):
+			sk++
+		case o.Rule == rules.CleanVariant:
+			nc++
+			if strings.HasPrefix(o.Result, "clean") {
+				dc++
+			}
+		default:
 			n++
-		}
-		if o.Result == "detected" {
-			d++
+			if o.Result == "detected" {
+				d++
+			}
 		}
 	}
 	res.Extra["control_mutants_applied"] = n
 	res.Extra["control_mutants_detected"] = d
-	fmt.Printf("%s controls: %d applied, %d detected, %d skipped\n", prop, n, d, len(outs)-n)
+	res.Extra["clean_variants_applied"] = nc
+	res.Extra["clean_variants_silent"] = dc
+	fmt.Printf("%s controls: %d applied, %d detected, %d skipped; behaviour-preserving variants: %d applied, %d silent\n", prop, n, d, sk, nc, dc)
 	return fail
 }
 
